@@ -1,6 +1,8 @@
 package main
 
 import (
+	"go/token"
+	"go/types"
 	"sort"
 	"strings"
 
@@ -397,4 +399,269 @@ func ruleDerRaw(c *Ctx, r *Rep) {
 			}
 		}
 	}
+}
+
+func init() {
+	register(&Rule{Name: "LINT-NILRESULT", Floor: 1, Run: ruleNilResult, Fixture: "fixture.useMaybeNil",
+		Doc: "a module function that can answer (nil, nil) - no value and no error - has its value tested against nil before a method is called on it: directly at the call site, or, when the value is put into a struct field or a list that another module function receives, where that field or the list's elements are used"})
+}
+
+// maybeNilFuncs: module functions returning (interface-or-pointer, …, error) with a return whose first result and error are both nil.
+func maybeNilFuncs(c *Ctx) map[*ssa.Function]bool {
+	out := map[*ssa.Function]bool{}
+	for _, f := range c.Funcs {
+		res := f.Signature.Results()
+		if res.Len() < 2 || !isErrorType(res.At(res.Len()-1).Type()) {
+			continue
+		}
+		switch res.At(0).Type().Underlying().(type) {
+		case *types.Interface, *types.Pointer:
+		default:
+			continue
+		}
+		for _, ret := range returnsOf(f) {
+			rr := retResults(ret)
+			for _, pe := range phiEdges(rr[0], ret.Block()) {
+				k, ok := pe.Val.(*ssa.Const)
+				if !ok || k.Value != nil {
+					continue
+				}
+				// error nil on the same path
+				for _, pe2 := range phiEdges(rr[len(rr)-1], ret.Block()) {
+					if k2, ok := pe2.Val.(*ssa.Const); ok && k2.Value == nil && (pe2.From == pe.From || pe2.From == nil || pe.From == nil) {
+						out[f] = true
+					}
+				}
+			}
+		}
+	}
+	return out
+}
+
+func ruleNilResult(c *Ctx, r *Rep) {
+	srcs := maybeNilFuncs(c)
+	nilTested := func(v ssa.Value) bool {
+		if v.Referrers() == nil {
+			return false
+		}
+		for _, u := range *v.Referrers() {
+			if bin, ok := u.(*ssa.BinOp); ok && (bin.Op == token.EQL || bin.Op == token.NEQ) {
+				if k, ok := bin.Y.(*ssa.Const); ok && k.Value == nil {
+					return true
+				}
+			}
+		}
+		return false
+	}
+	// is the invoke/deref of x in block b behind a nil test of the same access path?
+	guarded := func(x ssa.Value, b *ssa.BasicBlock) bool {
+		key := accessKey(x)
+		if ld, ok := x.(*ssa.UnOp); ok && ld.Op == token.MUL {
+			key = "*" + accessKey(ld.X)
+		}
+		for _, g := range guardsOf(b) {
+			bin, ok := g.Cond.(*ssa.BinOp)
+			if !ok {
+				continue
+			}
+			k, isK := bin.Y.(*ssa.Const)
+			if !isK || k.Value != nil {
+				continue
+			}
+			nonNil := (bin.Op == token.NEQ) == g.Truth
+			if !nonNil {
+				continue
+			}
+			if bin.X == x {
+				return true
+			}
+			k2 := accessKey(bin.X)
+			if ld, ok := bin.X.(*ssa.UnOp); ok && ld.Op == token.MUL {
+				k2 = "*" + accessKey(ld.X)
+			}
+			if key != "" && key != "*" && k2 == key {
+				return true
+			}
+		}
+		return false
+	}
+	// uses of a value as the receiver of a method call
+	invokesOn := func(x ssa.Value) []ssa.CallInstruction {
+		var out []ssa.CallInstruction
+		if x.Referrers() == nil {
+			return nil
+		}
+		for _, u := range *x.Referrers() {
+			if ci, ok := u.(ssa.CallInstruction); ok && ci.Common().IsInvoke() && ci.Common().Value == x {
+				out = append(out, ci)
+			}
+		}
+		return out
+	}
+	// consumers of a struct field / of the elements of a parameter
+	fieldUsesUnguarded := func(f *types.Var) []string {
+		var bad []string
+		for _, fn := range c.Funcs {
+			for _, b := range fn.Blocks {
+				for _, ins := range b.Instrs {
+					fa, ok := ins.(*ssa.FieldAddr)
+					if !ok || fieldOfAddr(fa) != f || fa.Referrers() == nil {
+						continue
+					}
+					for _, u := range *fa.Referrers() {
+						ld, ok := u.(*ssa.UnOp)
+						if !ok || ld.Op != token.MUL {
+							continue
+						}
+						for _, ci := range invokesOn(ld) {
+							if !guarded(ld, ci.Block()) {
+								bad = append(bad, c.FuncKey(fn)+" calls "+ci.Common().Method.Name()+" on ."+f.Name()+" at "+c.Pos(ci.Pos()))
+							}
+						}
+					}
+				}
+			}
+		}
+		return bad
+	}
+	elemUsesUnguarded := func(g *ssa.Function, idx int) []string {
+		var bad []string
+		if idx >= len(g.Params) || g.Blocks == nil {
+			return nil
+		}
+		p := g.Params[idx]
+		for _, b := range g.Blocks {
+			for _, ins := range b.Instrs {
+				ia, ok := ins.(*ssa.IndexAddr)
+				if !ok || ia.X != ssa.Value(p) || ia.Referrers() == nil {
+					continue
+				}
+				for _, u := range *ia.Referrers() {
+					ld, ok := u.(*ssa.UnOp)
+					if !ok || ld.Op != token.MUL {
+						continue
+					}
+					for _, ci := range invokesOn(ld) {
+						if !guarded(ld, ci.Block()) {
+							bad = append(bad, c.FuncKey(g)+" calls "+ci.Common().Method.Name()+" on an element of "+p.Name()+" at "+c.Pos(ci.Pos()))
+						}
+					}
+				}
+			}
+		}
+		return bad
+	}
+	var fns []*ssa.Function
+	fns = append(fns, c.Funcs...)
+	sort.Slice(fns, func(i, j int) bool { return c.FuncKey(fns[i]) < c.FuncKey(fns[j]) })
+	for _, fn := range fns {
+		n := 0
+		for _, ci := range callsIn(fn) {
+			f := ci.Common().StaticCallee()
+			if f == nil || !srcs[f] {
+				continue
+			}
+			call, ok := ci.(*ssa.Call)
+			if !ok || call.Referrers() == nil {
+				continue
+			}
+			var v ssa.Value
+			for _, u := range *call.Referrers() {
+				if ex, ok := u.(*ssa.Extract); ok && ex.Index == 0 {
+					v = ex
+				}
+			}
+			if v == nil || v.Referrers() == nil {
+				continue
+			}
+			n++
+			key := sprintf("nil-answer-handled|%s|%s#%d", c.FuncKey(fn), c.FuncKey(f), n)
+			if nilTested(v) {
+				r.Ok(key, c.Pos(ci.Pos()), "the value is compared with nil", "tested")
+				continue
+			}
+			var bad []string
+			for _, ic := range invokesOn(v) {
+				bad = append(bad, "method "+ic.Common().Method.Name()+" called on it at "+c.Pos(ic.Pos()))
+			}
+			for _, u := range *v.Referrers() {
+				st, ok := u.(*ssa.Store)
+				if !ok || st.Val != v {
+					continue
+				}
+				switch a := st.Addr.(type) {
+				case *ssa.FieldAddr:
+					bad = append(bad, fieldUsesUnguarded(fieldOfAddr(a))...)
+				case *ssa.IndexAddr:
+					// element of a local slice: where does the slice go?
+					if a.X.Referrers() != nil {
+						for _, su := range *a.X.Referrers() {
+							if ci2, ok := su.(ssa.CallInstruction); ok {
+								if g := ci2.Common().StaticCallee(); g != nil && c.InModule(g) {
+									for i, arg := range ci2.Common().Args {
+										if arg == a.X {
+											bad = append(bad, elemUsesUnguarded(g, i)...)
+										}
+									}
+								}
+							}
+						}
+					}
+					// captured by a closure that passes it on
+					for _, b := range fn.Blocks {
+						for _, ins := range b.Instrs {
+							mc, ok := ins.(*ssa.MakeClosure)
+							if !ok {
+								continue
+							}
+							cl := mc.Fn.(*ssa.Function)
+							for bi, bv := range mc.Bindings {
+								if bv != a.X && !(isAllocHolding(bv, a.X)) {
+									continue
+								}
+								fv := cl.FreeVars[bi]
+								for _, ci2 := range callsIn(cl) {
+									g := ci2.Common().StaticCallee()
+									if g == nil || !c.InModule(g) {
+										continue
+									}
+									for i, arg := range ci2.Common().Args {
+										if derivesFromFreeVar(arg, fv) {
+											bad = append(bad, elemUsesUnguarded(g, i)...)
+										}
+									}
+								}
+							}
+						}
+					}
+				}
+			}
+			r.Check(len(bad) == 0, key, c.Pos(ci.Pos()), "an absent value (nil, nil) is not used as if it were there", strings.Join(head(uniq(bad), 3), "; "))
+		}
+	}
+}
+
+// isAllocHolding: bv is the address of a local variable into which v is stored.
+func isAllocHolding(bv, v ssa.Value) bool {
+	al, ok := bv.(*ssa.Alloc)
+	if !ok || al.Referrers() == nil {
+		return false
+	}
+	for _, u := range *al.Referrers() {
+		if st, ok := u.(*ssa.Store); ok && st.Addr == ssa.Value(al) && st.Val == v {
+			return true
+		}
+	}
+	return false
+}
+
+// derivesFromFreeVar: arg is the free variable or a load of it.
+func derivesFromFreeVar(arg ssa.Value, fv *ssa.FreeVar) bool {
+	if arg == ssa.Value(fv) {
+		return true
+	}
+	if ld, ok := arg.(*ssa.UnOp); ok && ld.Op == token.MUL && ld.X == ssa.Value(fv) {
+		return true
+	}
+	return false
 }
